@@ -10,7 +10,8 @@ VARIABLES ci, line, words, st
 A0(s, l, kind) == [s |-> s, l |-> l, pos |-> FALSE, kind |-> kind, vm |-> IF kind = "flag" THEN "none" ELSE "req",
                    mand |-> FALSE, card |-> [t |-> "dflt", a |-> 0, b |-> 0], checks |-> <<>>, formats |-> <<>>,
                    sep |-> 44, clear |-> FALSE, sort |-> FALSE, uniq |-> "no", multi |-> FALSE, req |-> <<>>, exc |-> <<>>,
-                   init |-> CASE kind = "flag" -> FALSE [] kind = "int" -> 0 [] kind = "arr3" -> <<0, 0, 0>> [] OTHER -> <<>>,
+                   init |-> CASE kind = "flag" -> FALSE [] kind = "int" -> 0 [] kind \in {"arr3", "sarr3"} -> <<0, 0, 0>>
+                             [] kind = "tup" -> <<0, <<>>, 0>> [] kind = "bits8" -> [k \in 1..8 |-> FALSE] [] OTHER -> <<>>,
                    depr |-> FALSE, unset |-> FALSE, cspell |-> 0, grp |-> 0, hidden |-> FALSE, dashes |-> FALSE]
 Ck(k, a, b) == [k |-> k, a |-> a, b |-> b, vals |-> <<>>]
 C0(args, hcons, abbr) == [abbr |-> abbr, endvalues |-> FALSE, args |-> args, hcons |-> hcons]
@@ -34,7 +35,16 @@ Cfgs == <<
    \* 7: string with formats and length checks, optional<int>, any-of
    C0(<<[A0(118, K_val, "str") EXCEPT !.formats = <<"upper">>, !.checks = <<Ck("maxlen", 2, 0)>>], A0(110, K_num, "optint"), A0(97, K_al, "flag")>>, <<H("anyOf", <<2, 3>>)>>, TRUE),
    \* 8: all-of + cardinality max 2 on a scalar
-   C0(<<[A0(110, K_num, "int") EXCEPT !.card = [t |-> "max", a |-> 2, b |-> 0]], A0(97, K_al, "flag"), A0(98, <<>>, "flag")>>, <<H("allOf", <<2, 3>>)>>, TRUE)
+   C0(<<[A0(110, K_num, "int") EXCEPT !.card = [t |-> "max", a |-> 2, b |-> 0]], A0(97, K_al, "flag"), A0(98, <<>>, "flag")>>, <<H("allOf", <<2, 3>>)>>, TRUE),
+   \* 9: forward_list, multiset with unique data, priority queue
+   C0(<<[A0(97, K_al, "fwdint") EXCEPT !.init = <<2, 1>>], [A0(118, K_val, "msetint") EXCEPT !.uniq = "ignore"], A0(110, K_num, "pqint")>>, <<>>, TRUE),
+   \* 10: stack, queue, std::array with duplicates refused
+   C0(<<A0(97, K_al, "stackint"), [A0(118, K_val, "queueint") EXCEPT !.init = <<1, 2>>], [A0(110, K_num, "sarr3") EXCEPT !.uniq = "error"]>>, <<>>, TRUE),
+   \* 11: tuple, bitset with clear-before-assign, sorted list with its own separator, disjoint vectors
+   C0(<<A0(97, K_al, "tup"), [A0(98, <<>>, "bits8") EXCEPT !.clear = TRUE, !.init = [k \in 1..8 |-> k = 2]],
+        [A0(118, K_val, "listint") EXCEPT !.sort = TRUE, !.sep = 59]>>, <<>>, TRUE),
+   \* 12: disjoint constraint on two vectors, one of them with unique data
+   C0(<<A0(97, K_al, "vecint"), [A0(118, K_val, "vecint") EXCEPT !.uniq = "ignore", !.init = <<7>>]>>, <<H("disjoint", <<1, 2>>)>>, TRUE)
 >>
 Sel == IF CfgSel = {} THEN 1..Len(Cfgs) ELSE CfgSel
 Cfg == Cfgs[ci]
@@ -43,6 +53,7 @@ IntPool == {<<48>>, <<55>>, <<45, 51>>, <<120>>, <<49, 50>>}          \* "0" "7"
 StrPool == {<<120>>, <<97, 98>>, <<45, 121>>, <<88, 121, 122>>}        \* "x" "ab" "-y" "Xyz"
 ValChoices(arg) ==
    IF arg.kind = "flag" THEN {<<>>}
+   ELSE IF arg.kind = "tup" THEN {<<<<55>>, <<97, 98>>, <<45, 51>>>>, <<<<48>>, <<120>>, <<120>>>>, <<<<55>>, <<120>>>>, <<<<48>>>>, <<<<55>>, <<120>>, <<48>>, <<55>>>>}
    ELSE IF IsContainer(arg.kind) THEN {<<v>> : v \in IntPool \ {<<49, 50>>}} \cup {<<v, w>> : v, w \in {<<48>>, <<55>>, <<45, 51>>}}
    ELSE IF ElemIsInt(arg.kind) THEN {<<v>> : v \in IntPool}
    ELSE {<<v>> : v \in StrPool}
